@@ -7,6 +7,7 @@ import (
 	"os"
 	"runtime"
 	"runtime/pprof"
+	"strings"
 	"time"
 
 	"verif/internal/enum"
@@ -30,6 +31,31 @@ func main() {
 	if !ok {
 		fmt.Fprintln(os.Stderr, "unknown property", id)
 		os.Exit(2)
+	}
+	if os.Args[2] == "--crashed" {
+		// the exploring process died with a fatal runtime error (stack overflow, out of memory, concurrent
+		// map writes, deadlock of all goroutines): that is a verdict about the code it was executing, not
+		// a reason to end without one. The wrapper passes the tier and the file with the last output.
+		tier, logf := "quick", ""
+		if len(os.Args) > 3 {
+			tier = os.Args[3]
+		}
+		if len(os.Args) > 4 {
+			logf = os.Args[4]
+		}
+		r := fw.New(id, tier)
+		r.ReplayMode = true // no resource check on this stub run
+		tail, _ := os.ReadFile(logf)
+		first := ""
+		for _, ln := range strings.Split(string(tail), "\n") {
+			if strings.HasPrefix(ln, "fatal error:") || strings.HasPrefix(ln, "panic:") || strings.HasPrefix(ln, "runtime:") {
+				first = ln
+				break
+			}
+		}
+		r.Cap("the exploring process died: " + first)
+		r.Violation("crash:"+first, "the process exploring this property died with a fatal runtime error while executing the code under test: "+first+" (output kept in "+logf+")", map[string]string{"kind": "crash", "first_line": first, "output_file": logf})
+		os.Exit(r.Finish())
 	}
 	if os.Args[2] == "--replay" {
 		if len(os.Args) < 4 || p.replay == nil {
